@@ -45,24 +45,22 @@ def run(api):
         return {"table": vals[:-1], "default": vals[-1]}
 
     def guards():
-        out = {}
+        out = []
         for fn in ["duration_round", "duration_trunc", "duration_round_up"]:
             body = fn_body(src, fn, "delta_down")
-            m = re.search(r"if\s+span\s*(<=|<|==)\s*(-?\d+)\s*\{\s*return\s+Err\(RoundingError::DurationExceedsLimit\)", body)
-            out[fn] = [m.group(1), int(m.group(2))]
-        assert len({tuple(v) for v in out.values()}) == 1, out   # the three functions share the guard
-        op, lit = out["duration_round"]
-        # encoded as the greatest refused span: `span <= 0` -> 0, `span < 0` -> -1
-        assert op in ("<=", "<")
-        return lit if op == "<=" else lit - 1
+            m = re.search(r"if\s+span\s*(<=|<)\s*(-?\d+)\s*\{\s*return\s+Err\(RoundingError::DurationExceedsLimit\)", body)
+            op, lit = m.group(1), int(m.group(2))
+            # encoded as the greatest refused span: `span <= 0` -> 0, `span < 0` -> -1
+            out.append(lit if op == "<=" else lit - 1)
+        return out
 
     def tie():
-        body = fn_body(src, "duration_round", "delta_down")
-        m = re.search(r"if\s+delta_up\s*(<=|<)\s*delta_down\s*\{", body)
-        body2 = fn_body(src, "round_subsecs", "delta_down")
-        m2 = re.search(r"if\s+delta_up\s*(<=|<)\s*delta_down\s*\{", body2)
-        assert m.group(1) == m2.group(1)
-        return 1 if m.group(1) == "<=" else 0
+        out = []
+        for fn in ["duration_round", "round_subsecs"]:
+            body = fn_body(src, fn, "delta_down")
+            m = re.search(r"if\s+delta_up\s*(<=|<)\s*delta_down\s*\{", body)
+            out.append(1 if m.group(1) == "<=" else 0)
+        return out
 
     def scale():
         body = fn_body(dtm, "timestamp_nanos_opt")
@@ -74,21 +72,30 @@ def run(api):
     gd = api.section("C17.span guard", "src/round.rs", guards, None)
     ti = api.section("C17.tie rule", "src/round.rs", tie, None)
     sc = api.section("C17.timestamp scale", "src/datetime/mod.rs", scale, None)
+    keys = ["C17.span_for_digits", "C17.span guard", "C17.tie rule", "C17.timestamp scale"]
     if sp is None or gd is None or ti is None or sc is None:
-        return  # keep the committed snapshot file
+        for k in keys:  # keep the committed snapshot (file and values); stale items are in the report
+            if api.snap(k) is not None:
+                api.keep(k, api.snap(k))
+        return
     api.keep("C17.span_for_digits", sp)
     api.keep("C17.span guard", gd)
     api.keep("C17.tie rule", ti)
     api.keep("C17.timestamp scale", sc)
+    b = lambda x: "true" if x else "false"
     t = api.hdr + "namespace Chrono.Extracted.Round\n\n"
     t += "/-- `span_for_digits`: right-hand sides of the arms `0 => …, 1 => …, …` in order -/\n"
     t += "def SPAN_TABLE : List Int := [" + ", ".join(str(v) for v in sp["table"]) + "]\n"
     t += "/-- the `_ =>` arm -/\n"
     t += f"def SPAN_DEFAULT : Int := {sp['default']}\n"
-    t += "/-- greatest span refused by the guard at the head of `duration_round/trunc/round_up`\n(`span <= 0` gives 0) -/\n"
-    t += f"def SPAN_REFUSED_MAX : Int := {gd}\n"
-    t += "/-- `if delta_up <= delta_down` (ties go up) in `duration_round` and `round_subsecs` -/\n"
-    t += f"def TIE_UP : Bool := {'true' if ti else 'false'}\n"
+    t += "/-- greatest span refused by the guard at the head of `duration_round` / `duration_trunc` /\n`duration_round_up` (`span <= 0` gives 0, `span < 0` would give -1) -/\n"
+    t += f"def SPAN_REFUSED_MAX_ROUND : Int := {gd[0]}\n"
+    t += f"def SPAN_REFUSED_MAX_TRUNC : Int := {gd[1]}\n"
+    t += f"def SPAN_REFUSED_MAX_UP : Int := {gd[2]}\n"
+    t += "/-- `if delta_up <= delta_down` (ties go up) in `duration_round` -/\n"
+    t += f"def TIE_UP : Bool := {b(ti[0])}\n"
+    t += "/-- the same comparison in `round_subsecs` -/\n"
+    t += f"def TIE_UP_SUBSEC : Bool := {b(ti[1])}\n"
     t += "/-- the scale literal of `timestamp_nanos_opt` -/\n"
     t += f"def STAMP_SCALE : Int := {sc}\n"
     t += "\nend Chrono.Extracted.Round\n"
